@@ -147,7 +147,7 @@ func c10RunE2ECase(t *testing.T, tree *c10Tree, l *c10Layout, c *c10E2ECase) (ps
 	stop := make(chan struct{})
 	defer close(stop)
 	r.init(stop)
-	ps = mc.Guard(func() { r.suppressBECPU() })
+	ps = c10Guard(func() { r.suppressBECPU() })
 	return ps, tee
 }
 
@@ -159,7 +159,7 @@ func c10JudgeE2E(tree *c10Tree, l *c10Layout, c *c10E2ECase, ps string, tee *c10
 	pods := []c10Pod{{QoS: "LS"}, {QoS: "LSE", CPUSet: c10Fmt(c.LSESet)}, {QoS: "BE"}}
 	prot := c10Protected(l, pods, c.Topo)
 	elig := "eligible-cpus"
-	if prot.eligMax == 0 {
+	if prot.eligMin == 0 {
 		elig = "no-eligible-cpu"
 		cnt("every_cpu_protected_cases", 1)
 	}
